@@ -391,9 +391,13 @@ class Model:
         self.hilbert = False
         self.sigtype = "Signal"
         if cls == "GUPPIRawReader":
-            M = raw.transpose(0, 2, 1)            # (time, pol, chan) -> (time, chan, pol)
+            M = raw                                # (time, pol, chan)
             if float(hdr["OBSBW"]) < 0:
-                M = M.conj()
+                # lower sideband: spectrum of each channel inverted (-> conjugate) AND channels
+                # stored in descending frequency, f_k = OBSFREQ - OBSBW/2 + (k + 1/2) CHAN_BW
+                # with CHAN_BW < 0 (-> reverse, since a RadioSignal labels channels ascending)
+                M = M.conj()[:, :, ::-1]
+            M = M.transpose(0, 2, 1)              # -> (time, chan, pol)
             self.sr = self.raw_sr
             self.sigtype = "DualPolarizationSignal"
             self.expect = {"center_freq": float(hdr["OBSFREQ"]) * u.MHz, "freq_align": "center",
